@@ -160,7 +160,7 @@ type Check struct {
 	Assumptions   []string
 	Workers       int                                            // 0 => 16
 	CaseTimeout   time.Duration                                  // watchdog per worker (whole shard); 0 => default
-	CaseDeadline  time.Duration                                  // per case; 0 => 90 s quick / 10 min thorough
+	CaseDeadline  time.Duration                                  // per case; 0 => 4 min quick / 15 min thorough
 	Floor         func(tier string, agg map[string]int64) string // coverage floor: non-empty => harness error
 	Post          func(d *driverState)                           // optional extra aggregation (race logs ...)
 	NoLeakMonitor bool                                           // fault-injection / fuzz checks: error paths are not held to the handle rule
@@ -281,9 +281,9 @@ func workerMain(args []string) {
 		go func() { done <- runOneCase(ck, tier, seed, i, n, root) }()
 		deadline := ck.CaseDeadline
 		if deadline == 0 {
-			deadline = 90 * time.Second
+			deadline = 4 * time.Minute // a watchdog only (its firing is inconclusive): generous, the machine may be loaded
 			if tier == "thorough" {
-				deadline = 10 * time.Minute
+				deadline = 15 * time.Minute
 			}
 		}
 		var res CaseResult
